@@ -42,9 +42,19 @@ Qed.
 Lemma apply_effs_nil rs : apply_effs rs [] = rs.
 Proof. reflexivity. Qed.
 
+(* a pointer guard is a query: the read-type base operation it is lowered to reports len() and has no effect *)
+Lemma guard_read_ok ri hm a : run_sop ri hm a (guard_read a) = done (acc_len a) [].
+Proof.
+  unfold guard_read, acc_len, run_sop. destruct (a_kind a) as [| |esz n].
+  - unfold checked_sub. replace (0 <=? a_len a) with true by (symmetry; apply N.leb_le; lia).
+    rewrite N.sub_0_r, N.min_id. reflexivity.
+  - reflexivity.
+  - destruct (esz =? 1); rewrite N.min_id; reflexivity.
+Qed.
+
 Lemma run_xstep_lower hm rs x : run_xstep hm rs x = run_step hm rs (lower rs x).
 Proof.
-  destruct x as [s|ri k ch o|addr n ch o|ri o|ri k ch rj doff dlen]; cbn [run_xstep lower run_step].
+  destruct x as [s|ri k ch o|addr n ch o|ri o|ri k ch|ri k ch rj doff dlen]; cbn [run_xstep lower run_step].
   - reflexivity.
   - destruct (nth_error rs ri) as [r|]; [|reflexivity].
     rewrite derive_chain_app, <- root_acc_prefix.
@@ -55,6 +65,11 @@ Proof.
       destruct (d_sub (root r) (addr - r_start r) n KSlice) as [a0|]; reflexivity.
     + assert (Hn : nth_error rs (length rs) = None) by (apply nth_error_None; lia). rewrite Hn. reflexivity.
   - destruct (nth_error rs ri) as [r|]; [|reflexivity]. reflexivity.
+  - destruct (nth_error rs ri) as [r|] eqn:Hr; [|cbn [run_step]; rewrite Hr; reflexivity].
+    destruct (derive_chain (root r) (root_prefix k ++ ch)) as [a|] eqn:D; cbn [run_step]; rewrite Hr, D;
+      rewrite derive_chain_app, <- root_acc_prefix in D.
+    + destruct (root_acc r k) as [a0|]; [|discriminate]. rewrite D, guard_read_ok. reflexivity.
+    + destruct (root_acc r k) as [a0|]; [|reflexivity]. rewrite D. reflexivity.
   - unfold run_copy. destruct (nth_error rs ri) as [r|]; [|reflexivity].
     destruct (nth_error rs rj) as [r2|]; [|reflexivity].
     rewrite derive_chain_app, <- root_acc_prefix, map_get_slice_d_sub.
@@ -78,9 +93,22 @@ Proof.
   - apply IH. exact G6.
 Qed.
 
+Lemma nth_root_geo rs rs' j : map geo rs = map geo rs' ->
+  option_map root (nth_error rs j) = option_map root (nth_error rs' j).
+Proof.
+  intros H.
+  assert (G : option_map geo (nth_error rs j) = option_map geo (nth_error rs' j)).
+  { rewrite <- !nth_error_map. rewrite H. reflexivity. }
+  destruct (nth_error rs j) as [r|], (nth_error rs' j) as [r'|]; cbn [option_map] in G |- *; try discriminate; [|reflexivity].
+  unfold geo in G. inversion G as [[G1 G2 G3 G4 G5]]. unfold root. congruence.
+Qed.
+
 Lemma lower_geo rs rs' x : map geo rs = map geo rs' -> lower rs x = lower rs' x.
 Proof.
   intros H. destruct x; cbn [lower]; try reflexivity.
+  2: { pose proof (nth_root_geo rs rs' ri H) as R.
+       destruct (nth_error rs ri) as [r|], (nth_error rs' ri) as [r'|]; cbn [option_map] in R; try discriminate; [|reflexivity].
+       assert (R' : root r = root r') by congruence. rewrite R'. reflexivity. }
   pose proof (find_idx_geo rs rs' addr 0 H) as F.
   assert (L : length rs = length rs') by (rewrite <- (map_length geo rs), H, map_length; reflexivity).
   destruct (find_idx rs addr 0) as [[i r]|], (find_idx rs' addr 0) as [[i' r']|]; cbn [option_map fst snd] in F; try discriminate.
@@ -158,4 +186,14 @@ Proof.
   destruct (N.ltb_spec srclen cnt) as [L2|L2]; [intros H Hok; inversion H; subst; discriminate|].
   intros H _. inversion H; subst. cbn [o_effs done]. unfold weff; cbn [a_off a_bm root].
   rewrite N.add_0_l. split; [reflexivity|]. split; [exact L1|exact L2].
+Qed.
+
+(* ---- pointer guards are queries: taking (and dropping) ptr_guard() / ptr_guard_mut() of ANY accessor - slice, typed
+   reference, element array, from any root by any chain - has no effect: nothing stored, mark_dirty not called, same state *)
+Lemma guard_is_query_lemma hm rs ri k ch rs' out :
+  run_xstep hm rs (XGuard ri k ch) = (rs', out) -> rs' = rs /\ o_effs out = [].
+Proof.
+  cbn [run_xstep]. destruct (nth_error rs ri) as [r|]; [|intros H; inversion H; split; reflexivity].
+  destruct (root_acc r k) as [a0|]; [|intros H; inversion H; split; reflexivity].
+  destruct (derive_chain a0 ch) as [a|]; intros H; inversion H; split; reflexivity.
 Qed.
